@@ -114,7 +114,8 @@ where
                 continue;
             }
             if *key_bytes >= *end_key_bytes {
-                break;
+                // The cache is not ordered, later keys may still be in range
+                continue;
             }
             if let Some(cache) = self.cache.get(key) {
                 if let Some(value) = cache.latest() {
@@ -125,7 +126,10 @@ where
             }
         }
 
-        Ok(kv_pairs.into_iter().collect())
+        // Return the pairs in key order, like the underlying database iterator would
+        let mut kv_pairs: Vec<(K, V)> = kv_pairs.into_iter().collect();
+        kv_pairs.sort_by_cached_key(|(key, _)| key.encode_vec());
+        Ok(kv_pairs)
     }
 
     /// Returns all keys and values in the database
